@@ -28,6 +28,7 @@ let parse_op (s : string) : op option =
   | "H" :: _ -> Some (OHas (n 1, n 2))
   | "M" :: _ -> Some (OGetMut (n 1, n 2))
   | "F" :: _ -> Some (OFetchOp (fkind_of_int (int_of_string (List.nth t 1)), n 2, (n 3, n 4)))
+  | "Fu" :: _ -> Some (OFetchOp (fkind_of_int (int_of_string (List.nth t 1)), n 2, (n 3, n 4)))
   | "C" :: _ -> Some (OClone (n 1))
   | "D" :: _ -> Some (ODrop (n 1))
   | "R" :: _ -> Some (ORead (n 1))
